@@ -225,6 +225,11 @@ main(int argc, char *argv[])
 			fprintf(logf, "R OHx %" PRIu64 "\n", ovni_ev_get_clock(&ev));
 			fflush(logf);
 			ovni_ev_emit(&ev);
+		} else if (op[0] == 'R' && op[1] == ':') {
+			/* R:<model>:<version> -- the program states which model version it needs */
+			char model[64], ver[64];
+			if (sscanf(op + 2, "%63[^:]:%63s", model, ver) == 2)
+				ovni_thread_require(model, ver);
 		} else if (op[0] == 'c' && op[1] == 'd') {
 			/* the program changes its working directory (nothing the tracing protocol forbids) */
 			mkdir("elsewhere", 0755);
